@@ -1241,9 +1241,7 @@ func (w *worker) runCombine(ctx context.Context, task *Task, taskStats *stats.Ma
 			}
 
 			flushed := pcomb.Compact()
-			combErr := combiner.Combine(ctx, flushed)
-			combiners[p] <- combiner
-			if combErr != nil {
+			if combErr := combineAndRelease(ctx, combiners[p], combiner, flushed); combErr != nil {
 				return combErr
 			}
 		}
@@ -1256,13 +1254,21 @@ func (w *worker) runCombine(ctx context.Context, task *Task, taskStats *stats.Ma
 	// Flush the remainder.
 	for p, comb := range partitionCombiner {
 		combiner := <-combiners[p]
-		err := combiner.Combine(ctx, comb.Compact())
-		combiners[p] <- combiner
-		if err != nil {
+		if err := combineAndRelease(ctx, combiners[p], combiner, comb.Compact()); err != nil {
 			return err
 		}
 	}
 	return nil
+}
+
+// combineAndRelease combines f into the shared combiner comb, which the
+// caller has taken from c, and puts comb back into c. The combiner is put
+// back even if the (user-provided) combine function panics: otherwise
+// everyone else waiting for it, including the commit or discard of the
+// combine buffers, would block forever.
+func combineAndRelease(ctx context.Context, c chan *combiner, comb *combiner, f frame.Frame) error {
+	defer func() { c <- comb }()
+	return comb.Combine(ctx, f)
 }
 
 func (w *worker) Stats(ctx context.Context, _ struct{}, values *stats.Values) error {
